@@ -429,4 +429,39 @@ example :
           decide (s.prsp.v = .fin (1 / 10))
       | .error _ => false) = true := by decide +kernel
 
+
+
+theorem run_append (A : Arith) : ∀ (pre post : List Op) (s0 s : State),
+    run A s0 (pre ++ post) = .ok s → ∃ s1, run A s0 pre = .ok s1 ∧ run A s1 post = .ok s
+  | [], post, s0, s, h => ⟨s0, rfl, h⟩
+  | op :: pre, post, s0, s, h => by
+    simp only [List.cons_append, run] at h ⊢
+    split at h
+    · cases h
+    · next s' hs' =>
+      obtain ⟨s1, h1, h2⟩ := run_append A pre post s' s h
+      exact ⟨s1, by simp only [h1], h2⟩
+
+/-- **The limits in force.**  Parameters (limits, gains, wrap, drsp) may be rewritten between
+actions in any way; whatever happened before — any operations under any parameters — an
+evaluated `action()` leaves output and error sum within the ordered limits that the parm share
+holds AT THAT ACTION. -/
+theorem C46_limits_in_force (A : Arith) (s0 s : State) (pre : List Op) (st : Option Num)
+    (i r sp : Num) (p : Parm) (h : run A s0 (pre ++ [.update st i r sp p]) = .ok s) :
+    ∃ s1, run A s0 pre = .ok s1 ∧
+      (evaluated A s1 st = true → (limitsOf p).ordered = true → (limitsOf p).holds s = true) := by
+  obtain ⟨s1, h1, h2⟩ := run_append A pre _ s0 s h
+  refine ⟨s1, h1, ?_⟩
+  intro hev hord
+  simp only [run, step] at h2
+  split at h2
+  · cases h2
+  · next s' hs' =>
+    injection h2 with h2; subst h2
+    simp only [Limits.ordered, Bool.and_eq_true] at hord
+    simp only [Limits.holds, Bool.and_eq_true]
+    exact ⟨C46_errorsum_within_limits A s1 s' st i r sp p hev hord.1 hs',
+      C46_output_within_limits A s1 s' st i r sp p hev hord.2 hs'⟩
+
+
 end Ioflo.Pid
